@@ -342,6 +342,42 @@ class Check:
             self._sample(ob, [], "negative control: the deliberately wrong reference must be refuted")
         return True
 
+    def require_sat(self, oid, formulas, *, replay=None, timeout=None, nonlinear=False):
+        """an existential obligation of the property itself (e.g. 'different keys yield different runs'): the formulas must be satisfiable.
+        `unsat` means the property fails for every value; it is reported as a violation when `replay()` confirms it on the real code."""
+        if self.only is not None and oid != self.only:
+            return True
+        ob = self._new(oid, "prove")
+        fs = [f for f in formulas if not (isconc(f) and f)]
+        if any(isconc(f) and not f for f in fs):
+            status, t, solver = "unsat", 0.0, "trivial"
+        else:
+            fs = fs + solve.instantiate_axioms(fs)
+            res = solve.decide(fs, timeout_s=timeout or self.default_timeout, nonlinear=nonlinear)
+            self.queries += 1
+            self.solver_time += res.time
+            status, t, solver = res.status, res.time, res.solver
+        ob.time, ob.solver = t, solver
+        if status == "sat":
+            ob.status = "unsat"      # the negation (for all values: no difference) is refuted
+            ob.detail = "existential obligation satisfied"
+            self._sample(ob, [], "exists a value of the symbols satisfying the formulas (decided sat)")
+            return True
+        if status == "unsat":
+            reproduced, info = (None, {})
+            if replay is not None:
+                try:
+                    reproduced, info = replay()
+                except Exception as ex:  # noqa: BLE001
+                    reproduced, info = None, {"replay_error": repr(ex)}
+            if reproduced:
+                self._violation(ob, info, replay_info=info)
+                return False
+        ob.status = status if status != "unsat" else "unsat-unreproduced"
+        self.inconclusive.append(ob)
+        self.log(f"INCONCLUSIVE {oid}: existential obligation: solver answered {status}")
+        return False
+
     def control(self, oid, assumptions, wrong_goal, **kw):
         """negative control: the same query against a deliberately wrong reference must be refuted (sat)"""
         fs = list(assumptions) + [neg(wrong_goal)]
